@@ -14,6 +14,14 @@ CLAIMED = {
   text="Machine-checked proof for all pairs of integers: every translated operator (+,-,rsub,neg,abs,*int,//int,//,%,divmod, six comparisons, hash, bool, DateTime+-TimeDelta, DateTime-DateTime) equals the Z operation or OverflowError/ZeroDivisionError, divmod identity with floor semantics, (t+d)-t=d, trichotomy. Mixed datetime/hightime/float/Decimal operands are checked per run against an exact-rational bound evaluated in Coq (partial: bound only).",
   design="DESIGN.md §7 C03", tech="Coq proof over a translator-regenerated model + in-Coq correspondence",
   note=TB + "translator; harness; datetime/hightime/decimal arithmetic outside /repo assumed exact in their units."),
+ "C14": dict(
+  text="Machine-checked proof: for every integer tick count the regenerated TimeDelta fields lie in their normalized ranges and add up to the value floored to a yoctosecond; str() parts (regenerated, including the rounding carry) are within 1/2*10^-18 s; DateTime h/m/s/us/fs/ys fields, the calendar model (bijection days <-> valid dates for every day: complete 146097-day era sweep by vm_compute lifted by 400-year periodicity), all nine fields identify the floored instant, and building a DateTime from its fields returns the same ticks (uses the bt->ht->bt identity). Correspondence: fields/str/repr of objects reached through five construction paths, constructor from field tuples, datetime.date.fromordinal vs the calendar model.",
+  design="DESIGN.md §7 C14", tech="Coq proof (lia + finite sweep lifted by periodicity) over translator-regenerated fields + in-Coq correspondence",
+  note=TB + "translator; Model/Calendar.v models Python's date ordinal functions (compared per run); text layout checked by harness re-rendering."),
+ "C16": dict(
+  text="Machine-checked proof: the hand model of DigitalWaveform.test (nested loops with running indices, written in source order) returns exactly the filter of incompatible positions of the window for every pair of waveforms/windows/arguments, with the documented errors; the regenerated state table equals NI's table on all 64 pairs, is symmetric, reflexive and X-compatible; to_char/from_char inverse. Correspondence: random waveform pairs with different start_index/capacity geometry, all state pairs, all byte values.",
+  design="DESIGN.md §7 C16", tech="Coq proof (induction over the loops + 64-case vm_compute) + in-Coq correspondence",
+  note=TB + "translator for the tables; hand model of test() tied by correspondence; NumPy indexing modelled."),
 }
 m = {"version": 1, "setup_cmd": "./setup.sh",
      "hooks": {"guard": "NITYPES_VERIF", "enable": "no hooks are needed: every observable is reachable from Python; checks import nitypes from /repo/src (PYTHONPATH)",
